@@ -23,6 +23,11 @@ GUARD = "TECKI_EBPFCAT_VERIF"
 
 
 def setup_repo_import():
+    # an override that does not exist would silently fall back to an installed or cached ebpfcat:
+    # a mutant run would then test something else and look like a missed detection
+    if not os.path.isdir(os.path.join(REPO, "ebpfcat")):
+        print(f"MACHINERY-FAILURE: no ebpfcat package under {REPO!r} (VERIF_REPO_OVERRIDE?)", file=sys.stderr)
+        sys.exit(2)
     os.environ[GUARD] = "1"
     os.environ.setdefault("PYTHONHASHSEED", "0")
     sys.dont_write_bytecode = True
@@ -165,6 +170,11 @@ def main(argv):
     a = ap.parse_args(argv)
     seed = int(os.environ.get("VERIF_SEED", "0") or 0)
     setup_repo_import()
+    import ebpfcat
+    if os.path.realpath(os.path.dirname(ebpfcat.__file__)) != os.path.realpath(os.path.join(REPO, "ebpfcat")):
+        print(f"MACHINERY-FAILURE property={a.prop}: ebpfcat imported from {ebpfcat.__file__}, not from {REPO}",
+              file=sys.stderr)
+        return 2
     mod = importlib.import_module("checks." + a.prop.lower())
     ctx = Ctx(a.prop, a.tier if a.tier in ("quick", "thorough") else "quick", seed, mod.LEVEL)
     try:
